@@ -57,7 +57,9 @@
 (*   [op "regraph", nodes, assocs, xpar, acs, rcs, rls]   the repository   *)
 (*        as it is after further write operations (instances created,      *)
 (*        CreateInstance calls REJECTED, classes added); same filter lists;*)
-(*        later events are judged against it                               *)
+(*        later events are judged against it; field after = "rejected"     *)
+(*        when only rejected CreateInstance calls happened since the last  *)
+(*        graph / regraph event, else "writes"                             *)
 (*   [op "src", x, aq, rq]   every filter combination for source node x:   *)
 (*        aq[AqIdx(ia,ic,io,ir)].o[t] response of associator operation t   *)
 (*        with AssocClass acs[ia], ResultClass rcs[ic], Role rls[io],      *)
@@ -215,13 +217,19 @@ Bad(name, S) ==
 None(list) == {i \in DOMAIN list : list[i] = ""}
 
 (*------------------------------ graph event -----------------------------*)
+(* a CreateInstance that was REJECTED leaves the repository - and so every *)
+(* traversal result - as it was (event regraph with after = "rejected":    *)
+(* only rejected creates happened since the last graph / regraph event)    *)
 GraphFails(s, e) ==
   IF /\ (IF e.op = "graph" THEN ~s.started
         ELSE s.started /\ e.acs = s.acs /\ e.rcs = s.rcs /\ e.rls = s.rls)
      /\ GraphOk([nodes |-> e.nodes, assocs |-> e.assocs, xpar |-> e.xpar])
      /\ Len(e.acs) > 0 /\ Len(e.rcs) > 0 /\ Len(e.rls) > 0
      /\ e.acs[1] = "" /\ e.rcs[1] = "" /\ e.rls[1] = ""
-  THEN {} ELSE {"Malformed.graph"}
+  THEN IF /\ e.op = "regraph" /\ e.after = "rejected"
+          /\ [nodes |-> e.nodes, assocs |-> e.assocs, xpar |-> e.xpar] # s.G
+       THEN {"Repository.UnchangedByRejectedCreate"} ELSE {}
+  ELSE {"Malformed.graph"}
 
 (*------------------------- instance-level source ------------------------*)
 NameSlots == {1, 3, 5}
